@@ -39,6 +39,7 @@ const (
 	TFJSONGarbage  ToolFault = "json-then-garbage" // shellcheck only: a valid JSON array followed by a crash message
 	TFNullElement  ToolFault = "null-element"      // shellcheck only: valid JSON with a null element: [null]
 	TFNoNewline    ToolFault = "no-final-newline"  // pyflakes only: the output is cut off in the middle of the last line
+	TFExit137      ToolFault = "exit-137-empty"    // exits with a status above 127 (a wrapper reporting a signal) without output
 	TFBusyOnce     ToolFault = "busy-once"         // the first start attempt fails with ETXTBSY (the executable is being written); a second attempt works
 )
 
@@ -66,6 +67,9 @@ func ScanIssues(tool, stdin string) []ToolIssue {
 				is.Line, is.Col = 1, 1 // see Run: SC1xxx is reported at the start of the input
 			}
 			out = append(out, is)
+			if m == "SC2999" {
+				out = append(out, is) // printed twice (the entries differ in fields actionlint does not read)
+			}
 		}
 	}
 	return out
@@ -201,6 +205,8 @@ func (t *Tools) Run(argv []string, stdin string) kern.ToolResult {
 			cut = len(stdout)
 		}
 		return kern.ToolResult{Signaled: true, Stdout: stdout[:cut]}
+	case TFExit137:
+		return kern.ToolResult{ExitCode: 137}
 	case TFNonzeroEmpty, TFEpipe:
 		// "exits non-zero without output": nothing on stdout and nothing on stderr
 		return kern.ToolResult{ExitCode: 1}
